@@ -8,7 +8,8 @@ import propbase
 ID = "C08"
 MODULE = "HttpcoreModel.Props.C08"
 THEOREMS = [f"Httpcore.C08.{n}" for n in ("pool_mutations_locked", "limit_under_threads", "exclusive_use_all_interleavings",
-                                           "pass_assigns_and_evicts_same_connection", "close_marks_closed_first")]
+                                           "close_marks_closed_first", "retire_only_unassigned", "assignment_reserves", "source_protects_assigned",
+                                           "pass_assigns_and_evicts_same_connection_107", "pass_keeps_assigned_connection")]
 TRUSTED = [
     "Lean 4.33 kernel; axioms per theorem under coverage.theorems",
     "the pass model with an adversarial status oracle (Pool.passAdv, C04) and the transition system Sys, whose runs are all interleavings of "
@@ -23,11 +24,13 @@ ASSUMPTIONS = ["Python executes one source line of one thread at a time between 
                "a well-behaved server (the property's premise): every request is answered, no faults are injected"]
 LEVEL_TEXT = ("Lean 4 theorems: every mutation of the pool's lists is under the thread lock (decided over the regenerated table); the connection "
               "limit survives every adversarial answer to every status read of a pass (what other threads can change); at most one caller is "
-              "inside an exchange on a connection for every interleaving of atomic steps. The claim 'a request never fails because of another "
-              "thread' is false of the code and the counterexample is a theorem of the pass model (F-C08-a), replayed under a controlled "
-              "scheduler that makes every line-level interleaving of real threads reachable and replayable.")
+              "inside an exchange on a connection for every interleaving of atomic steps; a pass retires (surplus / room) only connections no "
+              "request has been handed, and the lock-free close() marks CLOSED before it touches the socket - the two facts that keep another "
+              "thread from closing a connection under a request (the 1.0.7 counterexample, F-C08-a, is kept as a theorem about the old rule). "
+              "Explored under a controlled scheduler that makes every line-level interleaving of real threads reachable and replayable.")
 LEVEL_NOTE = ("Partial: the models' atomicity assumptions are justified by the lock table; the absence of dead-locks, lost wake-ups and internal "
-              "errors is explored (seeded schedules), not proved. HTTP/2 connections are not thread-safe at all (finding F-C08-b).")
+              "errors is explored (seeded schedules), not proved; a connection the server has closed (expired) is still closed under an "
+              "assigned request - that request would fail on it anyway. HTTP/2 connections are not thread-safe at all (finding F-C08-b).")
 TECHNIQUE = "Lean 4 proof (adversarial-oracle pass bound, invariant corollaries, decide over lock table) + controlled thread scheduler on the real sync pool"
 DESIGN_REF = "§5 C08"
 
